@@ -806,6 +806,8 @@ def responsiveness(chk, actors):
     ask-graph theorem of C09 on the regenerated graph, and any cyclic wait the explored runs hit that involves `actors`"""
     lean.check_theorems(chk, "Poupool.Properties.C09", ["Poupool.C09.strict_graph_ranked", "Poupool.C09.no_wait_cycle"])
     handler_loops_obligation(chk)
+    from checks import blocking_common as _bc
+    _bc.obligations(chk)
     try:
         res = exploration(chk)
     except Exception:  # noqa: BLE001
